@@ -231,7 +231,9 @@ def handle_markup(args):
             # Avoid overwriting source if it's already .md
             output_path = args.input.with_name(f"{args.input.stem}_markup.md")
 
-    # 5. Save result
+    # 5. Save result. Encode first: text that cannot be encoded (a lone surrogate from a JSON escape) must fail before
+    # the output file is opened and truncated.
+    result.encode("utf-8")
     with open(output_path, "w", encoding="utf-8") as f:
         f.write(result)
 
